@@ -73,6 +73,45 @@ class FakeNet(object):
         self.requests = []
         self.served = {}
 
+    def plan(self, which):
+        """What this origin serves for the upgrade in progress: a function of the
+        published bodies and the injected fault only (not of what the code asks
+        for). Returns (kind of fault that would fire or None, body or None, reset)."""
+        url = self.PSL if which == 0 else self.IANA
+        f = self.fault
+        body = self.bodies[url]
+        if f is None or f.get("which", 0) != which or not f["kind"].startswith("net_"):
+            return None, body, False
+        kind = f["kind"]
+        if kind == "net_refused":
+            return kind, None, False
+        if kind == "net_reset_on_read":
+            return None, body, True
+        if kind == "net_truncated":
+            cut = int(len(body) * f.get("at", 0.5))
+            inside = False
+            try:
+                body[:cut].decode("utf-8")
+                # a decodable cut keeps whole lines only: a partial last line
+                # would be a malformed rule, whose meaning neither the algorithm
+                # nor the property defines
+                cut = body.rfind(b"\n", 0, cut) + 1
+            except UnicodeDecodeError:
+                inside = True
+            return (kind if cut < len(body) else None), body[:cut], inside
+        if kind == "net_garbage":
+            return kind, b"\xff\xfe\x00<html>\x80\x81 502 Bad Gateway \xc3\x28</html>", False
+        if kind == "net_stale":
+            return (kind if self.previous[url] != body else None), self.previous[url], False
+        return None, body, False
+
+    def would_serve(self, which):
+        kind, body, flag = self.plan(which)
+        f = self.fault
+        if f is not None and f.get("which", 0) == which and f["kind"] == "net_reset_on_read":
+            return None
+        return body
+
     def urlopen(self, url, *args, **kwargs):
         if not isinstance(url, str):
             url = url.full_url
@@ -80,39 +119,19 @@ class FakeNet(object):
             raise URLError("simulated: unknown origin %r" % (url,))
         which = 0 if url == self.PSL else 1
         self.requests.append(which)
+        kind, body, flag = self.plan(which)
         f = self.fault
-        body = self.bodies[url]
-        reset = False
-        if f is not None and f.get("which", 0) == which and f["kind"].startswith("net_"):
-            kind = f["kind"]
-            if kind == "net_refused":
-                self.fired(kind)
-                raise URLError("simulated: connection refused")
-            if kind == "net_reset_on_read":
-                reset = True
-            elif kind == "net_truncated":
-                cut = int(len(body) * f.get("at", 0.5))
-                try:
-                    body[:cut].decode("utf-8")
-                    # a decodable cut keeps whole lines only: a partial last
-                    # line would be a malformed rule, whose meaning neither the
-                    # algorithm nor the property defines
-                    cut = body.rfind(b"\n", 0, cut) + 1
-                except UnicodeDecodeError:
-                    self.stats.probe("truncated_inside_utf8_sequence")
-                if cut < len(body):
-                    self.fired(kind)
-                body = body[:cut]
-            elif kind == "net_garbage":
-                self.fired(kind)
-                body = b"\xff\xfe\x00<html>\x80\x81 502 Bad Gateway \xc3\x28</html>"
-            elif kind == "net_stale":
-                if self.previous[url] != body:
-                    self.fired(kind)
-                body = self.previous[url]
+        reset = bool(f is not None and f.get("which", 0) == which and f["kind"] == "net_reset_on_read")
+        if kind == "net_refused":
+            self.fired(kind)
+            raise URLError("simulated: connection refused")
+        if kind is not None:
+            self.fired(kind)
+        if f is not None and f.get("which", 0) == which and f["kind"] == "net_truncated" and flag:
+            self.stats.probe("truncated_inside_utf8_sequence")
         if not reset:
             self.served[which] = body
-        return FakeResponse(self, body, reset)
+        return FakeResponse(self, body if body is not None else b"", reset)
 
 
 class FakeFile(object):
